@@ -47,11 +47,11 @@ def encField (f : Field) : Json :=
 
 def decMember (j : Json) : Member :=
   { name := getStrD j "name", val := getStrD j "val", valStr := getStrD j "valStr", comment := getStrD j "comment",
-    exported := getBoolD j "exported", isInt := getBoolD j "isInt", int := getIntD j "int" }
+    exported := getBoolD j "exported", isInt := getBoolD j "isInt", int := getIntD j "int", str := getStrD j "str" }
 
 def encMember (m : Member) : Json :=
   Json.mkObj [("name", m.name), ("val", m.val), ("valStr", m.valStr), ("comment", m.comment),
-    ("exported", m.exported), ("isInt", m.isInt), ("int", m.int)]
+    ("exported", m.exported), ("isInt", m.isInt), ("int", m.int), ("str", m.str)]
 
 def decTArg (j : Json) : TArg := { named := getBoolD j "named", name := getStrD j "name", q := getStrD j "q" }
 def encTArg (a : TArg) : Json := Json.mkObj [("named", a.named), ("name", a.name), ("q", a.q)]
@@ -123,7 +123,7 @@ def decTypeFact (j : Json) : Except String TypeFact := do
 def decConstFact (j : Json) : ConstFact :=
   { name := getStrD j "name", typeQ := getStrD j "typeQ", val := getStrD j "val", valStr := getStrD j "valStr",
     isInt := getBoolD j "isInt", int := getIntD j "int", exported := getBoolD j "exported", comment := getStrD j "comment",
-    specIndex := getNatD j "specIndex" }
+    specIndex := getNatD j "specIndex", str := getStrD j "str" }
 
 def decPkgFacts (j : Json) : PkgFacts :=
   let impl : List (String × List String) :=
